@@ -1915,6 +1915,12 @@ pub fn control_step<const N: usize, P: Pad>(h: &Holder<N, P>, model: &[(u64, u32
     if ctx.attribute.is_none() {
         return false;
     }
+    control_exec(h, model, op, ctx, mon)
+}
+
+/// The control execution itself (also used before a fault is injected into a random history: an
+/// operation that already deviates without a fault gets none).
+pub fn control_exec<const N: usize, P: Pad>(h: &Holder<N, P>, model: &[(u64, u32)], op: &Op, ctx: &mut Ctx, mon: &MonCfg) -> bool {
     let seen_before = ctx.total_reports;
     let obs = observe(h.buf_ref());
     let (start, len) = measured_layout(h.buf_ref(), &obs).unwrap_or((0, model.len()));
